@@ -6,6 +6,7 @@ import glob
 import json
 import os
 import random
+import re
 import warnings
 
 from .. import fixtures, tlaval, tracecheck
@@ -95,15 +96,32 @@ def attr_sets(rng, k):
     from numbers_parser import RGB, Alignment
     from numbers_parser.generated.fontmap import FONT_NAME_TO_FAMILY
     fams = sorted(set(FONT_NAME_TO_FAMILY.values()))
+    from numbers_parser import BackgroundImage
     out = []
     for _ in range(k):
         bg = rng.choice([None, RGB(rng.randrange(256), rng.randrange(256), rng.randrange(256)), RGB(0, 0, 0), RGB(255, 255, 255)])
+        img = None
+        if rng.random() < 0.25:
+            # a background image instead of a colour: a small valid PNG with its own name
+            w, h = rng.randint(1, 6), rng.randint(1, 6)
+            img = BackgroundImage(tiny_png(w, h, (rng.randrange(256), rng.randrange(256), rng.randrange(256))), "img-%d-%d-%d.png" % (w, h, rng.randrange(10 ** 6)))
+            bg = None
         out.append(dict(font_name=rng.choice(fams), font_size=rng.randrange(4, 400) / 4.0, font_color=RGB(rng.randrange(256), rng.randrange(256), rng.randrange(256)),
                         bold=rng.random() < 0.5, italic=rng.random() < 0.5, underline=rng.random() < 0.5, strikethrough=rng.random() < 0.5,
                         alignment=Alignment(rng.choice(["left", "right", "center", "justified", "auto"]), rng.choice(["top", "middle", "bottom"])),
                         first_indent=rng.randrange(0, 80) / 4.0, left_indent=rng.randrange(0, 80) / 4.0, right_indent=rng.randrange(0, 80) / 4.0,
-                        text_inset=rng.randrange(0, 60) / 4.0, text_wrap=rng.random() < 0.5, bg_color=bg))
+                        text_inset=rng.randrange(0, 60) / 4.0, text_wrap=rng.random() < 0.5, bg_color=bg, bg_image=img))
     return out
+
+
+def tiny_png(w, h, rgb):
+    import struct
+    import zlib
+    raw = b"".join(b"\x00" + bytes(rgb) * w for _ in range(h))
+
+    def ch(t, d):
+        return struct.pack(">I", len(d)) + t + d + struct.pack(">I", zlib.crc32(t + d) & 0xFFFFFFFF)
+    return b"\x89PNG\r\n\x1a\n" + ch(b"IHDR", struct.pack(">IIBBBBB", w, h, 8, 2, 0, 0, 0)) + ch(b"IDAT", zlib.compress(raw)) + ch(b"IEND", b"")
 
 
 ATTRS = ["font_name", "font_size", "font_color", "bold", "italic", "underline", "strikethrough", "alignment", "first_indent", "left_indent", "right_indent",
@@ -119,7 +137,8 @@ def style_tuple(st):
         if hasattr(x, "r"):
             return (x.r, x.g, x.b)
         if hasattr(x, "filename"):
-            return ("img", x.filename)
+            import hashlib
+            return ("img", re.sub(r"^n\d+-", "", x.filename or ""), hashlib.sha1(x.data or b"").hexdigest())
         if isinstance(x, float):
             return round(x, 4)
         return x
@@ -129,13 +148,17 @@ def style_tuple(st):
 def style_job(job):
     (idx, ops, seed, scratch, twin) = job
     warnings.simplefilter("ignore")
-    from numbers_parser import Document, Style
+    from numbers_parser import BackgroundImage, Document, Style
     rng = random.Random(seed)
     sets = dict(zip(["A", "B"], attr_sets(rng, 2)))
     if twin:
         # near twins: B differs from A in exactly one attribute - the hard case for anything that shares or de-duplicates style records
         other = sets["B"]
-        for _ in range(50):
+        if twin == "bg_image":
+            sets["A"]["bg_color"] = None            # a fill is a colour or an image, not both
+        elif twin == "bg_color":
+            sets["A"]["bg_image"] = None
+        for _ in range(200):
             if style_tuple(Style(**{twin: other[twin]}))[ATTRS.index(twin)] != style_tuple(Style(**{twin: sets["A"][twin]}))[ATTRS.index(twin)]:
                 break
             other = attr_sets(rng, 1)[0]
@@ -165,11 +188,16 @@ def style_job(job):
             return "default"
         return "?:" + json.dumps(tup)[:200]
     trace = {"ev": [], "meta": {"ops": ops, "idx": idx, "twin": twin}}
+    nimg = 0
     for op in ops:
         e = dict(op)
         try:
             if op["op"] == "add":
                 kw = dict(sets[op["a"]])
+                if kw.get("bg_image") is not None:
+                    # the library stores an image file name once per document (by design): every add brings its own copy
+                    nimg += 1
+                    kw["bg_image"] = BackgroundImage(kw["bg_image"].data, "n%d-%s" % (nimg, kw["bg_image"].filename))
                 if op["nm"] != "AUTO":
                     kw["name"] = "Named " + op["nm"]
                 st = doc.add_style(**kw)
@@ -317,9 +345,9 @@ def run(ctx):
     twins = rng.sample(twins, min(len(twins), 4 if q else 60))
     # every such history once per attribute, with the two styles differing in that attribute only
     for j, h in enumerate(twins):
-        for k, a in enumerate(ATTRS[:-1]):
+        for k, a in enumerate(ATTRS):
             sjobs.append((100000 + j * 100 + k, [dict(o) for o in h], ctx.seed * 7 + j * 100 + k, ctx.scratch, a))
-    ctx.extra["twin_style_cases"] = len(twins) * (len(ATTRS) - 1)
+    ctx.extra["twin_style_cases"] = len(twins) * len(ATTRS)
     strs = fixtures.pmap(style_job, sjobs, ctx.workers, chunksize=4)
     ctx.evaluations += len(strs)
     for t in strs:
